@@ -5,6 +5,9 @@
 #define VERIF_GPUEMU_CUDA_H
 
 #include "../gpuemu.hpp"
+#ifdef GPUEMU_WORKGROUP
+#include "workgroup.hpp"
+#endif
 
 struct uint3 { unsigned int x, y, z; };
 struct dim3  { unsigned int x, y, z; };
@@ -28,8 +31,46 @@ namespace gpuemu {
 #define __forceinline__ inline
 #define __launch_bounds__(...)
 #define __syncthreads() gpuemu::barrier()
-// __shared__ / __constant__ are deliberately NOT defined here: per-group storage belongs to the
-// fiber-executor extension; a kernel using them does not compile against this minimal stub.
+// __shared__ is only defined with -DGPUEMU_WORKGROUP (fiber executor, see workgroup.hpp): per-group
+// storage needs every item of a group to be alive at the same time; without the macro a kernel using
+// it does not compile against this minimal stub.
+#ifdef GPUEMU_WORKGROUP
+// a __shared__ variable declared in a kernel: one instance for the group that is running
+#define __shared__ static
+#define __syncwarp() ((void) 0)
+// Atomic functions with the signatures of the CUDA C++ Programming Guide (B.14), nothing else: a
+// translation calling them with other argument lists does not compile.  Work-items are only
+// interleaved at barriers, so the plain read-modify-write below is atomic in this model.
+#define GPUEMU_ATOMIC_RMW(T, name, expr) \
+  inline T name(T *address, T val) { const T old = *address; *address = (T) (expr); return old; }
+GPUEMU_ATOMIC_RMW(int, atomicAdd, (unsigned int) old + (unsigned int) val)
+GPUEMU_ATOMIC_RMW(unsigned int, atomicAdd, old + val)
+GPUEMU_ATOMIC_RMW(unsigned long long, atomicAdd, old + val)
+GPUEMU_ATOMIC_RMW(float, atomicAdd, old + val)
+GPUEMU_ATOMIC_RMW(double, atomicAdd, old + val)
+GPUEMU_ATOMIC_RMW(int, atomicSub, (unsigned int) old - (unsigned int) val)
+GPUEMU_ATOMIC_RMW(unsigned int, atomicSub, old - val)
+GPUEMU_ATOMIC_RMW(int, atomicExch, val)
+GPUEMU_ATOMIC_RMW(unsigned int, atomicExch, val)
+GPUEMU_ATOMIC_RMW(unsigned long long, atomicExch, val)
+GPUEMU_ATOMIC_RMW(float, atomicExch, val)
+GPUEMU_ATOMIC_RMW(int, atomicMin, (val < old ? val : old))
+GPUEMU_ATOMIC_RMW(unsigned int, atomicMin, (val < old ? val : old))
+GPUEMU_ATOMIC_RMW(int, atomicMax, (val > old ? val : old))
+GPUEMU_ATOMIC_RMW(unsigned int, atomicMax, (val > old ? val : old))
+GPUEMU_ATOMIC_RMW(unsigned int, atomicInc, (old >= val ? 0u : old + 1u))
+GPUEMU_ATOMIC_RMW(unsigned int, atomicDec, ((old == 0u || old > val) ? val : old - 1u))
+GPUEMU_ATOMIC_RMW(int, atomicAnd, old & val)
+GPUEMU_ATOMIC_RMW(unsigned int, atomicAnd, old & val)
+GPUEMU_ATOMIC_RMW(unsigned long long, atomicAnd, old & val)
+GPUEMU_ATOMIC_RMW(int, atomicOr, old | val)
+GPUEMU_ATOMIC_RMW(unsigned int, atomicOr, old | val)
+GPUEMU_ATOMIC_RMW(unsigned long long, atomicOr, old | val)
+GPUEMU_ATOMIC_RMW(int, atomicXor, old ^ val)
+GPUEMU_ATOMIC_RMW(unsigned int, atomicXor, old ^ val)
+GPUEMU_ATOMIC_RMW(unsigned long long, atomicXor, old ^ val)
+#undef GPUEMU_ATOMIC_RMW
+#endif
 
 // launch an emulated kernel: for every work-item call fn(args...)
 #define GPUEMU_GRID_ENTRY(entryName, callExpr)                                        \
